@@ -294,6 +294,7 @@ def analyse(prog, lines):
             inside.pop(t, None)      # the helping slot is the last thing a walk touches in a node
     # quiescent end state: the count equation of C02
     fin = [e for e in evs if e.kind == "FINAL"]
+    offers = {}
     destructor_panic = any(e.kind == "DESTRUCTOR-PANIC" for e in evs)
     if destructor_panic:
         # C18: whatever else goes wrong in a run with a panicking destructor is a C18 finding too
@@ -324,6 +325,13 @@ def analyse(prog, lines):
                     findings.append(("C02", "node %s has %s writers registered at quiescence" % (f[1], f[3])))
                 if f[4] != "0":
                     findings.append(("C13", "node %s control word left at %s at quiescence" % (f[1], f[4])))
+                if len(f) > 5:
+                    offers.setdefault(f[5], []).append(f[1])
+        # every node owns its own hand-over envelope when nothing is in progress (EnvInv: an envelope is in one place)
+        for off, ns in offers.items():
+            if len(ns) > 1:
+                for pid_ in ("C12", "C03", "C02"):
+                    findings.append((pid_, "nodes %s offer the same hand-over envelope (%s) at quiescence: two writers helping at the same time would overwrite each other's replacement, a reader would be handed another container's value" % (",".join(ns), off)))
         for a, n in slots.items():
             if n > guards.get(a, 0):
                 findings.append(("C02", "borrow slot still holds %d although only %d guards on it exist" % (a, guards.get(a, 0))))
